@@ -20,7 +20,7 @@ Fixpoint perfect (h : nat) (t : tree) : Prop :=
    node is in the left subtree and the right subtree is perfect, one level
    shorter; if it is 1 the left subtree is perfect and the last node is on
    the right *)
-Fixpoint complete (bits : list bool) (t : tree) : Prop :=
+Fixpoint complete (bits : list bool) (t : tree) {struct t} : Prop :=
   match t with
   | Leaf => False
   | Node l _ r =>
@@ -52,6 +52,12 @@ Fixpoint sshape (a b : tree) : Prop :=
 Lemma sshape_refl t : sshape t t.
 Proof. induction t; cbn; auto. Qed.
 
+Lemma sshape_sym a : forall b, sshape a b -> sshape b a.
+Proof.
+  induction a as [|l1 IHl x1 r1 IHr]; intros [|l2 x2 r2] H; cbn in *; try contradiction; auto.
+  destruct H. split; auto.
+Qed.
+
 Lemma sshape_root l x y r t : sshape (Node l x r) t -> sshape (Node l y r) t.
 Proof. destruct t; auto. Qed.
 
@@ -66,7 +72,7 @@ Qed.
 
 Lemma complete_sshape a : forall bits b, sshape a b -> complete bits a -> complete bits b.
 Proof.
-  induction a as [|l1 IHl x1 r1 IHr]; intros bits [|l2 x2 r2] Hs Hc; cbn in *; try contradiction.
+  induction a as [|l1 IHl x1 r1 IHr]; intros bits [|l2 x2 r2] Hs Hc; cbn [sshape complete] in *; try contradiction.
   destruct Hs as [Hl Hr]. destruct bits as [|[] rest].
   - destruct Hc as [-> ->]. split; now apply sshape_leaf.
   - destruct Hc. split; [eapply perfect_sshape; eauto|eapply IHr; eauto].
@@ -254,7 +260,7 @@ Proof.
     assert (Hc : hord (if b then r else l)) by (destruct b; assumption).
     destruct (IH _ _ _ E Hfit Hc) as (HP & Hoc & Hroot).
     destruct c as [|cl y cr].
-    { exfalso. cbn in HP. symmetry in HP. eapply Permutation_nil_cons; eauto. }
+    { exfalso. cbn in HP. eapply Permutation_nil_cons; exact HP. }
     assert (Hmax : le_all y (preorder (Node cl y cr))) by now apply hord_root_max.
     cbn [preorder] in HP, Hmax. cbn [root] in Hroot.
     destruct Hoc as (Hcl & Hcr & Hocl & Hocr).
@@ -303,7 +309,7 @@ Qed.
 (* heap_remove: detach the last node, put it at the root, bubble down *)
 
 (* the path ends at a node without children *)
-Fixpoint ends (p : list bool) (t : tree) : Prop :=
+Fixpoint ends (p : list bool) (t : tree) {struct t} : Prop :=
   match t with
   | Leaf => False
   | Node l _ r =>
@@ -363,7 +369,7 @@ Proof.
     destruct (take_last r' tr) as [[y' c']|] eqn:Et; [|discriminate]. inv H.
     cbn [complete]. rewrite Hlen in Hl. split.
     + rewrite Hr1. now apply perfect_complete_ones.
-    + rewrite Hr2 in Hr, Et. eapply take_last_zeros; eauto.
+    + eapply take_last_zeros; eauto.
   - intros Hc H. destruct t as [|tl x tr]; cbn [complete] in Hc; [contradiction|].
     cbn [take_last] in H. destruct b; destruct Hc as [Hl Hr]; rewrite Hlen in *.
     + destruct (take_last r' tr) as [[y' c']|] eqn:Et; [|discriminate]. inv H.
@@ -420,7 +426,7 @@ Proof.
     + cbn [preorder hord sshape app]. split; [reflexivity|]. split; [|split; [exact I|split; apply sshape_refl]].
       repeat split; auto; [constructor|].
       apply le_all_cons. split; [lia|]. apply le_all_app.
-      split; eapply le_all_trans; try eassumption; lia.
+      split; (apply (le_all_trans rx); [lia|assumption]).
   - destruct Hl as (H1 & H2 & H3 & H4). specialize (IHl H3 H4). destruct IHl as (HP & Ho & Hs).
     destruct (prio x <? prio lx) eqn:E.
     + cbn [preorder hord sshape app]. split; [perm|]. split; [|split; [exact Hs|exact I]].
@@ -430,7 +436,7 @@ Proof.
     + cbn [preorder hord sshape app]. split; [reflexivity|]. split; [|split; [split; apply sshape_refl|exact I]].
       repeat split; auto; [|constructor].
       apply le_all_cons. split; [lia|]. apply le_all_app.
-      split; eapply le_all_trans; try eassumption; lia.
+      split; (apply (le_all_trans lx); [lia|assumption]).
   - pose proof Hl as (L1 & L2 & L3 & L4). pose proof Hr as (R1 & R2 & R3 & R4).
     specialize (IHl L3 L4). specialize (IHr R3 R4).
     destruct IHl as (HPl & Hol & Hsl). destruct IHr as (HPr & Hor & Hsr).
@@ -443,13 +449,13 @@ Proof.
       * eapply le_all_perm; [symmetry; exact HPl|]. apply le_all_cons. split; [lia|].
         apply le_all_app. auto.
       * apply le_all_cons. split; [lia|]. apply le_all_app.
-        split; eapply le_all_trans; try eassumption; lia.
+        split; (apply (le_all_trans rx); [lia|assumption]).
     + apply andb_prop in E2. destruct E2 as [Ea Eb].
       cbn [preorder hord sshape app]. split; [perm|].
       split; [|split; [split; apply sshape_refl|exact Hsr]].
       repeat split; auto.
       * apply le_all_cons. split; [lia|]. apply le_all_app.
-        split; eapply le_all_trans; try eassumption; lia.
+        split; (apply (le_all_trans lx); [lia|assumption]).
       * eapply le_all_perm; [symmetry; exact HPr|]. apply le_all_cons. split; [lia|].
         apply le_all_app. auto.
     + assert (prio lx <= prio x /\ prio rx <= prio x) as [Hlx Hrx].
@@ -459,9 +465,9 @@ Proof.
       split; [|split; split; apply sshape_refl].
       repeat split; auto.
       * apply le_all_cons. split; [lia|]. apply le_all_app.
-        split; eapply le_all_trans; try eassumption; lia.
+        split; (apply (le_all_trans lx); [lia|assumption]).
       * apply le_all_cons. split; [lia|]. apply le_all_app.
-        split; eapply le_all_trans; try eassumption; lia.
+        split; (apply (le_all_trans rx); [lia|assumption]).
 Qed.
 
 (* ------------------------------------------------------------------------ *)
@@ -482,7 +488,7 @@ Definition best_of (l : list task) (r : option task) : Prop :=
   end.
 
 Lemma hinv_create : hinv heap_create.
-Proof. cbn. auto. Qed.
+Proof. unfold hinv, heap_create. cbn. auto. Qed.
 
 Lemma hinv_count h : hinv h -> N.of_nat (length (helems h)) = hsize h.
 Proof. intros (Hs & _). now apply shape_count. Qed.
@@ -505,11 +511,16 @@ Proof.
   pose proof (ins_sshape (path (N.succ (hsize h))) e (htree h)) as Hsh. rewrite E in Hsh. cbn [fst] in Hsh.
   pose proof (graft_shape e _ _ Hs) as Hg.
   destruct (N.succ (hsize h)) as [|q] eqn:En; [lia|]. cbn [shape path] in *.
-  eapply complete_sshape; [|exact Hg].
-  clear -Hsh. revert Hsh. generalize (graft (path_pos q) e (htree h)). generalize t'.
-  induction t0 as [|l1 IHl x1 r1 IHr]; intros [|l2 x2 r2] H; cbn in *; try contradiction; auto.
-  destruct H. split; auto.
+  eapply complete_sshape; [|exact Hg]. now apply sshape_sym.
 Qed.
+
+Lemma hinv_insert h e : hinv h -> hinv (heap_insert h e).
+Proof. intros H. now apply heap_insert_spec. Qed.
+
+Lemma complete_cons b rest l x r : complete (b :: rest) (Node l x r) =
+  if b then perfect (S (length rest)) l /\ complete rest r
+  else complete rest l /\ perfect (length rest) r.
+Proof. destruct b; reflexivity. Qed.
 
 Lemma complete_left_leaf l x r : complete l (Node Leaf x r) -> l = [] /\ r = Leaf.
 Proof.
@@ -529,14 +540,10 @@ Proof.
     cbn in Hc. destruct Hc as [-> ->]. auto.
 Qed.
 
-Lemma sshape_sym a : forall b, sshape a b -> sshape b a.
-Proof.
-  induction a as [|l1 IHl x1 r1 IHr]; intros [|l2 x2 r2] H; cbn in *; try contradiction; auto.
-  destruct H. split; auto.
-Qed.
-
 Lemma shape_pos_cases p : p = 1%positive \/ exists p0, p = Pos.succ p0.
 Proof. destruct (Pos.succ_pred_or p) as [->|H]; [now left|right; eauto]. Qed.
+
+Local Opaque sift N.sub.
 
 Theorem heap_remove_spec oh oh' r : oinv oh -> heap_remove oh = (oh', r) ->
   oinv oh' /\ Permutation (oelems oh) (opt r ++ oelems oh') /\ best_of (oelems oh) r /\
@@ -554,14 +561,18 @@ Proof.
   destruct l as [|ll lx lr].
   - (* only the top *)
     intros H. inv H. apply complete_left_leaf in Hs. destruct Hs as [_ ->].
-    cbn [oinv oelems opt app preorder]. repeat split; auto. discriminate.
+    cbn [oinv oelems opt app preorder]. split; [exact I|]. split; [reflexivity|]. split; [exact Hbest|].
+    intros ? ? _ Hn. discriminate.
   - destruct r0 as [|rl rx rr].
     + (* top and its left child *)
-      intros H. inv H. apply complete_right_leaf in Hs. destruct Hs as (Hpath & -> & ->).
-      assert (Hp2 : N.pos p = 2%N) by (rewrite <- val_path, Hpath; reflexivity).
+      apply complete_right_leaf in Hs. destruct Hs as (Hpath & -> & ->).
+      assert (p = 2%positive) as ->.
+      { assert (N.pos p = 2%N) by (rewrite <- val_path, Hpath; reflexivity). congruence. }
+      intros H. inv H.
       cbn [oinv oelems opt app]. unfold hinv, helems. cbn [hsize htree hprio preorder app].
-      rewrite Hp2. cbn. repeat split; auto; try constructor.
-      intros ? ? Ha Hb _. inv Ha. inv Hb. cbn. now rewrite En.
+      replace (2 - 1)%N with 1%N by lia. cbn [shape path_pos complete root_prio].
+      split; [repeat split; auto; constructor|]. split; [reflexivity|]. split; [exact Hbest|].
+      intros ? ? Ha Hb _. inv Ha. inv Hb. cbn [hsize]. now rewrite En.
     + (* at least three nodes *)
       destruct (shape_pos_cases p) as [->|[p0 ->]]; [cbn in Hs; destruct Hs; discriminate|].
       cbn [path].
@@ -571,7 +582,7 @@ Proof.
       { intros Hnil. rewrite Hnil in Hs. cbn in Hs. destruct Hs; discriminate. }
       inv E1. inv H.
       pose proof (take_last_shape _ _ _ _ Hs E) as Hs'.
-      destruct (Hh Ho) as (_ & _ & Hl' & Hr').
+      pose proof (Hh Ho) as Hh'. cbn [hord] in Hh'. destruct Hh' as (_ & _ & Hl' & Hr').
       pose proof (sift_spec y (Node l' y r')) as Hsift. cbn beta iota in Hsift.
       destruct (Hsift Hl' Hr') as (HPs & Hos & Hss).
       cbn [oinv oelems opt app]. unfold hinv, helems. cbn [hsize htree hprio].
@@ -584,6 +595,8 @@ Proof.
       * exact Hbest.
       * intros ? ? Ha Hb _. inv Ha. inv Hb. cbn [hsize]. rewrite En. lia.
 Qed.
+
+Local Opaque N.mul N.add N.pow.
 
 Theorem heap_split_spec oh oh1 oh2 r : oinv oh ->
   (forall h, oh = Some h -> (hsize h < 2 ^ 32)%N) ->
@@ -602,12 +615,15 @@ Proof.
   { split; [now left|]. unfold le_all in Hmax. rewrite Forall_forall in Hmax. exact Hmax. }
   destruct l as [|ll lx lr].
   - intros H. inv H. apply complete_left_leaf in Hs. destruct Hs as [_ ->].
-    cbn [oinv oelems opt app preorder]. repeat split; auto.
+    cbn [oinv oelems opt app preorder]. split; [exact I|]. split; [exact I|]. split; [reflexivity|exact Hbest].
   - destruct r0 as [|rl rx rr].
-    + intros H. inv H. apply complete_right_leaf in Hs. destruct Hs as (Hpath & -> & ->).
-      assert (Hp2 : N.pos p = 2%N) by (rewrite <- val_path, Hpath; reflexivity).
+    + apply complete_right_leaf in Hs. destruct Hs as (Hpath & -> & ->).
+      assert (p = 2%positive) as ->.
+      { assert (N.pos p = 2%N) by (rewrite <- val_path, Hpath; vm_compute; reflexivity). congruence. }
+      intros H. inv H.
       cbn [oinv oelems opt app]. unfold hinv, helems. cbn [hsize htree hprio preorder app].
-      rewrite Hp2. cbn. repeat split; auto; constructor.
+      replace (2 - 1)%N with 1%N by lia. cbn [shape path_pos complete root_prio].
+      split; [repeat split; auto; constructor|]. split; [exact I|]. split; [reflexivity|exact Hbest].
     + destruct Ho as (Hlx & Hrx & Hol & Hor).
       destruct (path_pos p) as [|b rest] eqn:Epath; [cbn in Hs; destruct Hs; discriminate|].
       assert (Hval : N.pos p = val (b :: rest)) by (rewrite <- Epath; symmetry; apply val_path).
@@ -615,25 +631,29 @@ Proof.
       destruct (split_sizes b rest Hlt) as (Hhb & Htb & Htest & Hld). cbv zeta in *.
       rewrite Htest, Hld, Htb. rewrite val_cons.
       pose proof (val0_lt rest) as Hv0. pose proof (pow2_pos (N.of_nat (length rest))) as Hpp.
-      destruct b; intros H; inv H; cbn [complete] in Hs; destruct Hs as [Hsl Hsr];
-        cbn [oinv oelems opt app]; unfold hinv, helems; cbn [hsize htree hprio root_prio preorder].
+      set (K := (2 ^ N.of_nat (length rest))%N) in *. set (V := val0 rest) in *.
+      rewrite complete_cons in Hs.
+      destruct b; intros H; inv H; destruct Hs as [Hsl Hsr];
+        cbn [oinv oelems opt app]; unfold hinv, helems; cbn [hsize htree hprio root_prio].
       * (* last node on the right: the left subtree is perfect *)
-        repeat split; auto.
-        -- change (2 ^ N.of_nat (length rest) + val0 rest)%N with (val rest).
-           now apply shape_val.
-        -- replace (_ - _ - 1)%N with (val (repeat true (length rest))).
-           ++ apply shape_val. now apply perfect_complete_ones.
-           ++ pose proof (val_ones (length rest)). lia.
+        assert (Hhs : (K + V)%N = val rest) by reflexivity.
+        assert (Hns : (2 * K + K + V - (K + V) - 1)%N = val (repeat true (length rest))).
+        { pose proof (val_ones (length rest)). fold K in H. lia. }
+        rewrite Hns, Hhs. split; [|split; [|split]].
+        -- split; [apply shape_val; exact Hsr|split; [exact Hor|reflexivity]].
+        -- split; [apply shape_val; apply perfect_complete_ones; exact Hsl|split; [exact Hol|reflexivity]].
         -- cbn [preorder]. perm.
+        -- exact Hbest.
       * (* last node on the left: the right subtree is perfect, one level shorter *)
-        repeat split; auto.
-        -- destruct rest as [|b' rest']; [cbn in Hsr; contradiction|].
-           replace (_ - _ - 1)%N with (val (repeat true (length rest'))).
-           ++ apply shape_val. now apply perfect_complete_ones.
-           ++ pose proof (val_ones (length rest')). cbn [length] in *. rewrite pow2_S in *. lia.
-        -- replace (0 + val0 rest + 2 ^ N.of_nat (length rest))%N with (val rest) by (unfold val; lia).
-           now apply shape_val.
+        destruct rest as [|b' rest']; [cbn in Hsr; contradiction|].
+        assert (Hns : (0 + V + K)%N = val (b' :: rest')) by (unfold val; fold K; fold V; lia).
+        assert (Hhs : (2 * K + 0 + V - (0 + V + K) - 1)%N = val (repeat true (length rest'))).
+        { pose proof (val_ones (length rest')). unfold K. cbn [length]. rewrite pow2_S. lia. }
+        rewrite Hhs, Hns. split; [|split; [|split]].
+        -- split; [apply shape_val; apply perfect_complete_ones; exact Hsr|split; [exact Hor|reflexivity]].
+        -- split; [apply shape_val; exact Hsl|split; [exact Hol|reflexivity]].
         -- cbn [preorder]. perm.
+        -- exact Hbest.
 Qed.
 
 (* ------------------------------------------------------------------------ *)
@@ -689,7 +709,7 @@ Proof.
     + destruct (heap_insert_spec heap_create e hinv_create) as (Hi & HP & _).
       split; [now apply set_nth_Forall|]. split; [|reflexivity].
       pose proof (set_nth_all_elems i _ (Some (heap_insert heap_create e)) s En) as HPs.
-      cbn [oelems] in HPs. cbn [opt]. perm.
+      unfold oelems in HPs. change (helems heap_create) with (@nil task) in HP. cbn [opt]. perm.
     + split; [exact Hinv|]. split; [|reflexivity]. cbn. rewrite !app_nil_r. reflexivity.
   - rewrite app_nil_r. destruct (nth_error s i) as [oh|] eqn:En.
     + destruct (heap_remove oh) as [oh' r'] eqn:Er. inv H.
@@ -699,7 +719,7 @@ Proof.
       split; [now apply set_nth_Forall|]. split.
       * pose proof (set_nth_all_elems i _ oh' s En) as HPs. perm.
       * intros oh0 Hoh0. inv Hoh0. exact Hb.
-    + inv H. split; [exact Hinv|]. split; [cbn; reflexivity|]. intros oh Hoh. discriminate.
+    + inv H. split; [exact Hinv|]. split; [perm|]. intros oh Hoh. discriminate.
   - rewrite app_nil_r. destruct (nth_error s i) as [oh|] eqn:En.
     + destruct (heap_split oh) as [[oh' nh] r'] eqn:Er. inv H.
       assert (Hh : oinv oh).
@@ -713,7 +733,7 @@ Proof.
       * pose proof (set_nth_all_elems i _ oh' s En) as HPs. rewrite all_elems_app.
         cbn [all_elems flat_map]. rewrite app_nil_r. perm.
       * intros oh0 Hoh0. inv Hoh0. exact Hb.
-    + inv H. split; [exact Hinv|]. split; [cbn; reflexivity|]. intros oh Hoh. discriminate.
+    + inv H. split; [exact Hinv|]. split; [perm|]. intros oh Hoh. discriminate.
 Qed.
 
 Lemma hinserted_cons s o os : hinserted s (o :: os) = hinserted s [o] ++ hinserted (fst (hstep s o)) os.
@@ -745,4 +765,14 @@ Proof.
     destruct (IH _ _ _ Hinv1 Hb1 E2) as (Hinv2 & HP2).
     split; [exact Hinv2|]. rewrite hinserted_cons, E1. cbn [fst].
     change (match r with Some t => [t] | None => [] end) with (opt r). perm.
+Qed.
+
+(* the priority field is the highest priority held, the size field the number of tasks *)
+Theorem hinv_fields h : hinv h ->
+  (forall y, In y (helems h) -> prio y <= hprio h) /\
+  (forall l x r, htree h = Node l x r -> hprio h = prio x) /\
+  N.of_nat (length (helems h)) = hsize h.
+Proof.
+  intros Hh. split; [now apply hinv_top_max|]. split; [|now apply hinv_count].
+  intros l x r Et. destruct Hh as (_ & _ & Hp). now rewrite Hp, Et.
 Qed.
